@@ -17,7 +17,7 @@ from ..harness import CheckBase
 IO_CALLS = {'open', 'write_bytes', 'read_bytes', 'copyfileobj', 'replace', 'unlink', 'fstat', 'truncate', 'mkdir', 'scandir',
             'NamedTemporaryFile', 'exists', 'rename', 'remove', 'rmdir'}
 TOOL = 4
-ATTEMPT_BOUND = {'local': 16, 's3': 16, 'b2': 64}
+ATTEMPT_BOUND = {'local': 100, 's3': 100, 'b2': 400}      # far above any sane retry policy, still finite
 TRANSIENT_COUNTS = (1, 2, 3)
 
 
@@ -92,8 +92,8 @@ class Check(CheckBase):
             'bounded number of attempts counted at the service, the old object is intact. Repository level: snapshot + restore '
             'through the fake services under seeded transient fault schedules restore identical bytes. Retry waits are virtual. '
             'class = (backend, operation, fault kind, position class, count)')
-    assumptions = ['attempt bounds: 16 for Local/S3, 64 for B2 (its retry layers nest); constants of the retry policy may be tuned '
-                   'freely below these', 'fake services are part of the trusted base']
+    assumptions = ['attempt bounds: 100 for Local/S3, 400 for B2 (its retry layers nest) - far above any sane policy, so constants may be '
+                   'tuned freely; an unbounded loop exceeds them within a second because retry waits are virtual', 'fake services are part of the trusted base']
     case_timeout = 300
 
     def generate(self):
